@@ -706,7 +706,7 @@ def run_history(ctx, rng, length, faults):
 def run(ctx):
     ctx.rule = RULE
     rng = ctx.rng
-    n = ctx.n(120, 8000)
+    n = ctx.n(120, 20000)
     for i in range(n):
         run_history(ctx, rng, rng.randint(5, 40), faults=(i % 3 == 2))
     need = ['invariant-scan', 'signer-judged', 'operation-repeated', 'crash-reopen', 'op-del_key', 'op-del_identity', 'op-reopen',
